@@ -74,6 +74,7 @@ type RunConfig struct {
 	Known         map[string]bool // ids of open known findings (excluded by assumption)
 	OnlyFinding   string          // explore only inputs matching this known finding
 	CollectNotes  bool
+	KnownSigs     []KnownSig
 }
 
 type Stats struct {
@@ -102,6 +103,29 @@ type Stats struct {
 	TimedOut      bool
 	MaxTrace      int
 	Notes         []string
+	KnownHits     map[string][]*Violation
+	KnownCount    int
+}
+
+// KnownSig identifies a known finding by the call site and message of the failure.
+type KnownSig struct {
+	ID, MatchMsg, MatchWhere, MatchKind string
+}
+
+func (c *RunConfig) matchKnownSig(v *Violation) string {
+	for _, k := range c.KnownSigs {
+		if k.MatchKind != "" && k.MatchKind != v.Kind {
+			continue
+		}
+		if k.MatchMsg != "" && !strings.Contains(v.Msg, k.MatchMsg) {
+			continue
+		}
+		if k.MatchWhere != "" && !strings.Contains(v.Where, k.MatchWhere) {
+			continue
+		}
+		return k.ID
+	}
+	return ""
 }
 
 type explorer struct {
@@ -624,6 +648,18 @@ func (i *Interp) runPath(harness *ssa.Function, forced []Decision) {
 			v.Harness = harness.Name()
 			v.Pretty = prettyModel(i.tt.vars, v.Model)
 			v.Tags = append(v.Tags, i.path.notes...)
+			if id := i.cfg.matchKnownSig(v); id != "" {
+				// a listed known finding (identified by its failing call site): tallied, one
+				// example kept for the native replay, exploration continues
+				if st.KnownHits == nil {
+					st.KnownHits = map[string][]*Violation{}
+				}
+				if len(st.KnownHits[id]) < 1 {
+					st.KnownHits[id] = append(st.KnownHits[id], v)
+				}
+				st.KnownCount++
+				return
+			}
 			if len(st.Violations) < i.cfg.MaxViolations {
 				st.Violations = append(st.Violations, v)
 			}
